@@ -41,6 +41,7 @@ type c04Case struct {
 	Def                   string   `json:",omitempty"` // DefaultDiceSideExpr for this case (faceless dice: the Y of the case)
 	PrevDef               string   `json:",omitempty"` // a faceless die was rolled on the same VM under this earlier setting
 	Extra                 int      `json:",omitempty"` // dice of one side drawn by nested rolls inside the term's own arguments, before the term's dice
+	Bound                 string   `json:",omitempty"` // "max" / "min": the pool is evaluated in that mode (no dice are drawn) under a budget of 400
 	Script                int      `json:",omitempty"` // scripted faces: the first Script draws show the top face (explode), all later ones 1
 }
 
@@ -243,6 +244,30 @@ func c04Enumerate(tier string, seed int64, emit func(string, any)) {
 		emit("wod", c04Case{Kind: "wod", Src: fmt.Sprintf("2a%d", add), Pool: 2, Add: add, Sides: 10, Thr: 8, GE: true, MaxPts: 3, MaxDev: -1})
 		emit("wod", c04Case{Kind: "wod", Src: fmt.Sprintf("a%d", add), Pool: 1, Add: add, Sides: 10, Thr: 8, GE: true, MaxPts: 3, MaxDev: -1})
 	}
+	// suffix lists in every order and with repeats: the LAST m and the LAST of k / q decide (each roll starts from the defaults)
+	for _, sfx := range []struct {
+		s          string
+		sides, thr int
+		ge         bool
+	}{
+		{"m3k2", 3, 2, true}, {"k2m3", 3, 2, true}, {"m3q1", 3, 1, false}, {"q1m3", 3, 1, false}, {"m3q1k2", 3, 2, true}, {"m3k2q1", 3, 1, false}, {"q1m3k2", 3, 2, true}, {"k2m3q1", 3, 1, false}, {"q1k2m3", 3, 2, true},
+		{"m3k1k2", 3, 2, true}, {"m3q2q1", 3, 1, false}, {"m2m3k2", 3, 2, true}, {"m3k2m2", 2, 2, true}, {"m3q1k2q1", 3, 1, false}, {"m3k3q1k2", 3, 2, true},
+	} {
+		for _, pool := range []int{1, 2} {
+			for _, add := range []int{0, 3} {
+				emit("wod suffix orders", c04Case{Kind: "wod", Src: fmt.Sprintf("%da%d%s", pool, add, sfx.s), Pool: pool, Add: add, Sides: sfx.sides, Thr: sfx.thr, GE: sfx.ge, MaxPts: maxPts, MaxDev: -1})
+			}
+		}
+		// two pools in one expression: the second starts from the defaults again
+		emit("wod suffix orders", c04Case{Kind: "wod", Src: fmt.Sprintf("0 * 1a0m1q1 + 1a0%s", sfx.s), Pool: 1, Add: 0, Sides: sfx.sides, Thr: sfx.thr, GE: sfx.ge, Extra: 1, MaxPts: maxPts, MaxDev: -1})
+	}
+	// pools in max / min mode: whatever comes back describes itself consistently (as many dice listed as counted, as many
+	// success marks as successes); a pool that explodes for ever in that mode is an error, never a made-up value
+	for _, b := range []string{"max", "min"} {
+		for _, src := range []string{"2a10", "2a11", "3a5", "1a2m2", "2a0m6k4", "3a9q2", "2c8", "2c10", "2c11m10", "1c2m2", "14a10", "15a10", "2a10 + 2c10"} {
+			emit("pools in max / min mode", c04Case{Kind: "pool-bound", Src: src, Bound: b})
+		}
+	}
 	// Double Cross: pool c crit m sides
 	for pool := -1; pool <= maxPool; pool++ {
 		for sides := 0; sides <= 4; sides++ {
@@ -421,6 +446,46 @@ func c04Run(raw json.RawMessage) harn.Result {
 		if len(res.Violations) < 3 {
 			res.Violations = append(res.Violations, harn.Violation{Signature: sig, What: fmt.Sprintf("%s: %s", c.Src, what)})
 		}
+	}
+	if c.Kind == "pool-bound" {
+		cfg := drv.AllOn()
+		cfg.Max, cfg.Min, cfg.OpLimit = c.Bound == "max", c.Bound == "min", 400
+		vm := drv.NewVM(cfg)
+		var err error
+		if site, p := harn.Guard(func() { err = vm.Run(c.Src) }); p {
+			viol(site, "panic")
+			return res
+		}
+		if err != nil {
+			res.Outcome = "single"
+			res.Sample = c.Src + " in " + c.Bound + " mode: error"
+			return res
+		}
+		for _, sp := range vm.DetailSpans {
+			text := sp.Text
+			hdr := atoiAll(strings.SplitN(text, "{", 2)[0])
+			if len(hdr) < 2 || !strings.Contains(text, "/") {
+				continue
+			}
+			total, listed, stars := hdr[1], 0, 0
+			for _, r := range parseRounds(text) {
+				for _, d := range r {
+					listed++
+					if d.star {
+						stars++
+					}
+				}
+			}
+			if strings.Contains(text, "{") && listed != total {
+				viol("C04:pool-text", fmt.Sprintf("%s mode: the text %q counts %d dice and lists %d", c.Bound, trunc(text, 120), total, listed))
+			}
+			if strings.Contains(text, "{") && strings.Contains(text, "成功") && stars != hdr[0] {
+				viol("C04:pool-text", fmt.Sprintf("%s mode: the text %q reports %d successes and marks %d dice", c.Bound, trunc(text, 120), hdr[0], stars))
+			}
+		}
+		res.Outcome = "varied"
+		res.Sample = c.Src + " in " + c.Bound + " mode: " + vm.Ret.ToString()
+		return res
 	}
 	cfg := drv.AllOn()
 	vm := drv.NewVM(cfg)
